@@ -492,9 +492,16 @@ func c18Inflight(e *sim.Env) {
 		fire(r)
 	}
 
+	// 1 in 3: the application has closed the listener itself before it closes
+	// the syncer (Close then finds it closed already)
+	listenerFirst := e.Chance(1, 3)
 	doClose := func() {
 		start := time.Now()
 		ch := make(chan struct{})
+		if listenerFirst {
+			srv.l.Close()
+			e.Fault("listener-closed-before-syncer")
+		}
 		go func() {
 			srv.sy.Close()
 			lcm.mu.Lock()
